@@ -515,6 +515,22 @@ def r7_dump_writes_only_what_the_version_has(ctx, res):
     r1_tables(ctx, res)
     r3_writer_coverage(ctx, res)
 
+def r8_the_parser_sees_the_whole_file(ctx, res):
+    """what load() accepts is what the XML parser accepts: the expat parser is fed the file from its first byte
+    (`ParseFile(open(source, 'rb'))`) - the two header lines _read_header compares after normalising quotes are parsed too, so a
+    header that only looks right after that normalisation (mismatched quotes) is still rejected as ill-formed."""
+    from ..speccheck import view
+    v = view(ctx, 'lmf', 'load')
+    key = 'load:parser-fed-the-file'
+    feeds = [r for r in v.rows if r[0] in ('call', 'eval') and ('.ParseFile(' in r[1] or '.Parse(' in r[1])]
+    res.inst(key, v.loc(), f'{[r[1][-70:] for r in feeds]}')
+    ok = len(feeds) == 1 and ".ParseFile(open(Path(source).expanduser(), 'rb'))" in feeds[0][1] \
+        and any(c.startswith("with open(Path(source).expanduser(), 'rb')") for c in feeds[0][3])
+    if not ok:
+        res.find(key, v.loc(), 'load() no longer hands the whole file (opened in binary mode, from its first byte) to the expat parser: '
+                               f'{[r[1][-80:] for r in feeds]} - the XML declaration and DOCTYPE are then checked only by _read_header, which '
+                               'normalises quotes before comparing')
+
 RULES = [
     ('C20-R1', r1_header, 6),
     ('C20-R2', r2_reader_rejects, 6),
@@ -523,4 +539,5 @@ RULES = [
     ('C20-R5', r5_parse_before_write, 5),
     ('C20-R6', r6_writer_wellformed, 7),
     ('C20-R7', r7_dump_writes_only_what_the_version_has, 100),
+    ('C20-R8', r8_the_parser_sees_the_whole_file, 1),
 ]
